@@ -66,6 +66,9 @@ type Prop struct {
 	FixedLayout bool
 	// NoOracle marks lines that are not sent to the twin (real-only observation lines).
 	RealOnly func(line string) bool
+	// Agree decides whether the twin's answer covers the real one (nil = equality).  Used where the
+	// twin answers with a set of outcomes (DESIGN.md section 2: membership instead of equality).
+	Agree func(line, real, twin string) bool
 }
 
 // Failure is one reported problem.
@@ -178,7 +181,7 @@ func runCase(p *Prop, o *oracle.O, c Case) outcome {
 				to = "oracle-error " + err.Error()
 			}
 			out.twin = append(out.twin, to)
-			if to != ro && out.disLine < 0 {
+			if out.disLine < 0 && to != ro && (p.Agree == nil || !p.Agree(ln, ro, to)) {
 				out.disLine = i
 			}
 		} else {
